@@ -112,6 +112,8 @@ def vkey(v):
     if isinstance(v, SeqV):
         return ('Q', tuple(vkey(x) for x in v.items))
     if isinstance(v, Opaque):
+        if isinstance(v.info, dict) and v.info.get('structural'):
+            return ('O', v.tag, tuple((k, vkey(x)) for k, x in sorted(v.info.items())))
         return ('O', v.uid)
     if isinstance(v, FnItem):
         return ('F', v.name)
@@ -157,6 +159,7 @@ class Path:
         self.steps = 0
         self.result = None
         self.status = 'running'   # returned | diverged | cut
+        self.nfid = 1000
 
     def clone(self):
         p = Path()
@@ -166,7 +169,12 @@ class Path:
         p.events = self.events
         p.env = dict(self.env)
         p.steps = self.steps
+        p.nfid = self.nfid
         return p
+
+    def new_fid(self):
+        self.nfid += 1
+        return self.nfid
 
     def event(self, *e):
         self.events = self.events + (e,)
@@ -495,6 +503,8 @@ class Executor:
                 val = done[0].result
                 # a promoted `&T` is a Ref into the sub-store: make it self-contained
                 val = self.detach(done[0], val, sub)
+                if isinstance(val, tuple) and val and val[0] == 'constref':
+                    val = ('constref', val[1], cand)
                 self.const_cache[cand] = val
             return self.const_cache[cand]
         if self.m.has(name) or any(x == name for x in self.m.index):
@@ -531,8 +541,8 @@ class Executor:
         else:
             v = self.read_place(path, frame, op.place)
         if isinstance(v, tuple) and v and v[0] == 'constref':
-            # materialise a promoted constant in the store
-            key = ('const', next(self.fid))
+            # materialise a promoted constant in the store (immutable, keyed by its name)
+            key = ('const', v[2])
             path.store[key] = v[1]
             return Ref(key)
         return v
@@ -779,23 +789,224 @@ class Executor:
         p = self.start(fn_name, args, path)
         return self.run_paths([p])
 
-    def run_paths(self, paths):
-        work = list(paths)
-        done = []
-        while work:
-            p = work.pop()
+    def run_paths(self, paths, merge=None, order_key=None):
+        merge = self.merge if merge is None else merge
+        if not merge:
+            work = list(paths)
+            done = []
+            while work:
+                p = work.pop()
+                if p.status != 'running':
+                    done.append(p)
+                    continue
+                for q in self.step_block(p):
+                    (work if q.status == 'running' else done).append(q)
+            self.stats['paths'] += len(done)
+            self.finished.extend(done)
+            return done
+        # merging scheduler: paths that arrive at the same block with the same cursor, call stack, store and events are
+        # joined (their path conditions are or-ed); the queue is ordered so that laggards run first
+        import heapq
+        heap, pending, done = [], {}, []
+        cnt = itertools.count()
+        order_key = order_key or self.order_key
+
+        def push(p):
             if p.status != 'running':
                 done.append(p)
-                continue
-            succ = self.step_block(p)
-            for q in succ:
-                if q.status == 'running':
-                    work.append(q)
-                else:
-                    done.append(q)
+                return
+            top = p.frames[-1]
+            if isinstance(top, MirFrame) and top.bb in top.fn.blocks:
+                live, pinned = self.liveness(top.fn)
+                lv = live[top.bb]
+                for k in [k for k in p.store if k[0] == top.fid and k[1] not in lv and k[1] not in pinned]:
+                    del p.store[k]
+            sig = self.signature(p)
+            if sig in pending:
+                q = pending[sig]
+                self.join(q, p)
+                self.stats['merged'] = self.stats.get('merged', 0) + 1
+                return
+            pending[sig] = p
+            heapq.heappush(heap, (order_key(self, p), next(cnt), sig))
+        for p in paths:
+            push(p)
+        while heap:
+            _, _, sig = heapq.heappop(heap)
+            p = pending.pop(sig)
+            for q in self.step_block(p):
+                push(q)
         self.stats['paths'] += len(done)
         self.finished.extend(done)
         return done
+
+    merge = False
+
+    def liveness(self, fn):
+        """backward liveness of MIR locals; locals whose address is taken are pinned (never pruned)."""
+        if hasattr(fn, '_live'):
+            return fn._live
+        pinned = set(['_0'])
+        gen, kill, succ = {}, {}, {}
+
+        def place_uses(pl, acc):
+            acc.add(pl.local)
+            for st in pl.proj:
+                if st[0] == 'index':
+                    acc.add(st[1])
+
+        def op_uses(op, acc):
+            if op is not None and op.mode != 'const':
+                place_uses(op.place, acc)
+
+        def rv_uses(rv, acc):
+            k = rv.kind
+            if k == 'use':
+                op_uses(rv.a, acc)
+            elif k == 'ref':
+                place_uses(rv.a, acc)
+                if not any(st[0] == 'deref' for st in rv.a.proj):
+                    pinned.add(rv.a.local)
+            elif k == 'binop':
+                op_uses(rv.b, acc)
+                op_uses(rv.c, acc)
+            elif k == 'unop':
+                op_uses(rv.b, acc)
+            elif k in ('discriminant', 'len'):
+                place_uses(rv.a, acc)
+            elif k == 'cast':
+                op_uses(rv.a, acc)
+            elif k == 'aggregate':
+                for o in rv.b:
+                    op_uses(o, acc)
+            elif k == 'repeat':
+                op_uses(rv.a, acc)
+        for b, (stmts, term) in fn.blocks.items():
+            g, kl = set(), set()
+
+            def use(acc_fn, *a):
+                acc = set()
+                acc_fn(*a, acc)
+                for x in acc:
+                    if x not in kl:
+                        g.add(x)
+
+            def define(pl):
+                if not pl.proj:
+                    kl.add(pl.local)
+                else:
+                    use(place_uses, pl)
+            for st in stmts:
+                if st.kind == 'assign':
+                    use(rv_uses, st.rvalue)
+                    define(st.place)
+                elif st.kind == 'setdiscr':
+                    use(place_uses, st.place)
+            t = []
+            if term is not None:
+                d = term.data
+                if term.kind == 'goto':
+                    t = [d['target']]
+                elif term.kind == 'switch':
+                    use(op_uses, d['op'])
+                    t = [x for _, x in d['arms']]
+                elif term.kind == 'drop':
+                    t = [v for k, v in d['targets'].items() if k == 'return']
+                elif term.kind == 'assert':
+                    use(op_uses, d['cond'])
+                    t = [d['targets']['success']]
+                elif term.kind == 'call':
+                    for o in d['args']:
+                        use(op_uses, o)
+                    if d['dst'] is not None:
+                        define(d['dst'])
+                    t = [v for k, v in d['targets'].items() if k == 'return']
+            gen[b], kill[b], succ[b] = g, kl, [x for x in t if x in fn.blocks]
+        live = {b: set(gen[b]) for b in fn.blocks}
+        changed = True
+        while changed:
+            changed = False
+            for b in fn.blocks:
+                out = set()
+                for s_ in succ[b]:
+                    out |= live[s_]
+                new = gen[b] | (out - kill[b])
+                if new != live[b]:
+                    live[b] = new
+                    changed = True
+        fn._live = (live, pinned)
+        return fn._live
+
+    def rpo(self, fn):
+        if not hasattr(fn, '_rpo'):
+            succ = {}
+            for b, (stmts, term) in fn.blocks.items():
+                t = []
+                if term is not None:
+                    d = term.data
+                    if term.kind == 'goto':
+                        t = [d['target']]
+                    elif term.kind == 'switch':
+                        t = [x for _, x in d['arms']]
+                    elif term.kind in ('drop', 'assert', 'call'):
+                        t = [v for k, v in d['targets'].items() if k in ('return', 'success')]
+                succ[b] = t
+            order, seen = [], set()
+            stack = [('bb0', iter(succ.get('bb0', [])))]
+            seen.add('bb0')
+            while stack:
+                b, it = stack[-1]
+                adv = False
+                for t in it:
+                    if t not in seen and t in fn.blocks:
+                        seen.add(t)
+                        stack.append((t, iter(succ.get(t, []))))
+                        adv = True
+                        break
+                if not adv:
+                    order.append(b)
+                    stack.pop()
+            order.reverse()
+            fn._rpo = {b: i for i, b in enumerate(order)}
+        return fn._rpo
+
+    @staticmethod
+    def order_key(exe, p):
+        cursor = p.env.get('ps', (0,))[0] if 'ps' in p.env else p.env.get('cursor', 0)
+        ks = []
+        for f in p.frames:
+            if isinstance(f, MirFrame):
+                ks.append(exe.rpo(f.fn).get(f.bb, 0))
+            else:
+                ks.append(-1)
+        return (cursor, tuple(ks))
+
+    def signature(self, p):
+        fr = []
+        for f in p.frames:
+            if isinstance(f, MirFrame):
+                fr.append((f.fn.name, f.fid, f.bb, repr(f.dst), f.target))
+            else:
+                fr.append(('native', id(f.cb), vkey(f.data)))
+        st = tuple(sorted(((repr(k), vkey(v)) for k, v in p.store.items() if k[0] != 'const')))
+        env = tuple(sorted((k, vkey(v) if not isinstance(v, dict) else tuple(sorted((kk, vkey(vv)) for kk, vv in v.items())))
+                           for k, v in p.env.items()))
+        return (tuple(fr), st, env, vkey(p.events))
+
+    def join(self, q, p):
+        """q := q or p (same state, different path conditions)"""
+        i = 0
+        while i < len(q.pc) and i < len(p.pc) and q.pc[i].get_id() == p.pc[i].get_id():
+            i += 1
+        a = z3.And(q.pc[i:]) if len(q.pc) > i else z3.BoolVal(True)
+        b = z3.And(p.pc[i:]) if len(p.pc) > i else z3.BoolVal(True)
+        q.pc = q.pc[:i] + [z3.Or(a, b)]
+        q.steps = max(q.steps, p.steps)
+        for fq, fp in zip(q.frames, p.frames):
+            if isinstance(fq, MirFrame):
+                for k, v in fp.visits.items():
+                    if v > fq.visits.get(k, 0):
+                        fq.visits[k] = v
 
     def do_return(self, path, val):
         """pop frames: deliver `val` to the frame below (MIR or native)."""
@@ -891,6 +1102,9 @@ class Executor:
             key = (frame.fid, '_0')
             val = path.store.get(key, UNIT)
             path.frames.pop()
+            if path.frames:
+                for k in [k for k in path.store if k[0] == frame.fid]:
+                    del path.store[k]
             return self.do_return(path, val)
         if k == 'unreachable':
             # statically unreachable by construction of MIR (exhaustive match); reaching it would be UB
@@ -942,13 +1156,37 @@ class Executor:
                     c = (v == val)
                     seen.append(val)
                 conds.append((c, bb))
+        # diamond merge: arms whose target block is `_x = const k; goto J` (same _x, same J) become one ite-table arm,
+        # so that e.g. a 22-way digit match does not fork the state 22 ways
+        if not z3.is_bool(v) and len(conds) > 3:
+            fn = frame.fn
+            groups = {}
+            for (c, bb), (val, _) in zip(conds, arms):
+                if val is None or bb not in fn.blocks:
+                    continue
+                stmts, term = fn.blocks[bb]
+                if len(stmts) == 1 and stmts[0].kind == 'assign' and not stmts[0].place.proj and \
+                        stmts[0].rvalue.kind == 'use' and stmts[0].rvalue.a.mode == 'const' and \
+                        stmts[0].rvalue.a.const.kind in ('int', 'bool', 'char') and term is not None and term.kind == 'goto':
+                    groups.setdefault((stmts[0].place.local, term.data['target']), []).append((c, bb, stmts[0].rvalue.a))
+            for (local, join), members in groups.items():
+                if len(members) < 3:
+                    continue
+                table = None
+                for c, bb, op in reversed(members):
+                    k = self.const_value(path, op.const)
+                    table = k if table is None else z3.If(c, k, table)
+                cond = z3.Or([c for c, _, _ in members])
+                drop = set(bb for _, bb, _ in members)
+                conds = [(c, bb) for c, bb in conds if bb not in drop]
+                conds.append((cond, ('diamond', local, table, join)))
         live = []
         for c, bb in conds:
             c = z3.simplify(c)
             if z3.is_false(c):
                 continue
             live.append((c, bb))
-        if len(live) == 1 and z3.is_true(live[0][0]):
+        if len(live) == 1 and z3.is_true(live[0][0]) and not isinstance(live[0][1], tuple):
             frame.bb = live[0][1]
             return [path]
         for i, (c, bb) in enumerate(live):
@@ -956,7 +1194,12 @@ class Executor:
                 continue
             q = path.clone()
             q.pc.append(c)
-            q.frames[-1].bb = bb
+            if isinstance(bb, tuple):
+                _, local, table, join = bb
+                q.store[(q.frames[-1].fid, local)] = table
+                q.frames[-1].bb = join
+            else:
+                q.frames[-1].bb = bb
             out.append(q)
         return out
 
@@ -997,7 +1240,7 @@ class Executor:
         name = self.resolve_local(callee, len(args))
         if name is not None and (self.inline is None or self.inline(name)):
             fn = self.m.get(name)
-            fr = MirFrame(fn, next(self.fid))
+            fr = MirFrame(fn, path.new_fid())
             if len(args) != len(fn.params):
                 raise MirUnsupported('arity mismatch calling %s' % name)
             for prm, a in zip(fn.params, args):
@@ -1074,7 +1317,7 @@ class Executor:
                 return hits3[0]
             if hits2:
                 return None
-        if len(hits) == 1 and len(seg) == 1:
+        if len(hits) == 1:
             return hits[0]
         return None
 
@@ -1083,7 +1326,7 @@ class Executor:
         if then is not None:
             path.frames.append(NativeFrame(then, data))
         fn = self.m.get(name)
-        fr = MirFrame(fn, next(self.fid))
+        fr = MirFrame(fn, path.new_fid())
         if len(args) != len(fn.params):
             raise MirUnsupported('arity mismatch calling %s (%d vs %d)' % (name, len(args), len(fn.params)))
         for prm, a in zip(fn.params, args):
